@@ -147,7 +147,8 @@ brk("c07_cancel_noop", [E("context.access.ctx.cancel", stmt("task.cancel()"), PA
 brk("c07_cancel_silent_outside", [E("context.access.ctx.cancel", lambda n: isinstance(n, ast.Raise), PASS)], {"C07": ["C07.3"]})
 brk("c07_uncancel", [E(f"{TGC}.__aexit__", lambda n: isinstance(n, ast.Try), after("if (task := current_task_()) is not None:" + NL + "    task.uncancel()"))], {"C07": ["C07.1"]})
 ben("c07_bare_raise", [E("helpers.retries._wrap_async.wrapped", handler("CancelledError"), lambda s: s.replace("raise exc", "raise"))], ["C07", "C14"])
-ben("c07_narrow_silencer", [E(f"{TGC}.__aexit__", handler("BaseException"), sub("except BaseException", "except Exception"))], ["C07", "C06", "C02"])
+brk("c02_narrow_silencer", [E(f"{TGC}.__aexit__", handler("BaseException"), sub("except BaseException", "except Exception"))], {"C02": ["C02.7"], "C11": ["C11.7"]}, note="found by a seeded change: a BaseExceptionGroup from the task group replaces the body's exception; aclose of a stream raises the group")
+ben("c07_narrow_silencer_keeps_cancellation", [E(f"{TGC}.__aexit__", handler("BaseException"), sub("except BaseException", "except Exception"))], ["C07", "C06"])
 ben("c07_check_truthy", [E("context.access.ctx.check_cancellation", expr_has("task.cancelling()", ast.Compare), to("task.cancelling()"))], ["C07"])
 ben("c07_check_ge1", [E("context.access.ctx.check_cancellation", expr_has("task.cancelling()", ast.Compare), to("task.cancelling() >= 1"))], ["C07"])
 
